@@ -258,8 +258,10 @@ pub fn run(args: &Args) -> i32 {
             c.ev64(v, "spsp", None);
         }
     }
-    // beyond 64 bits: psi_12 and psi_13, both of the form p(2p-1)
-    for &pp in &[399165290221u64, 1287836182261] {
+    // beyond 64 bits: psi_12 and psi_13 (proved), and the upper bounds of Zhang for psi_14, psi_15, psi_16 = psi_17,
+    // psi_18 = psi_19 (strong pseudoprimes to the first 14, 15, 17, 19 primes), all of the form p(2p-1): together they
+    // reject a test that uses fewer than 20 of the small prime bases
+    for &pp in &[399165290221u64, 1287836182261, 54786377365501, 172157429516701, 531099297693901, 27778299663977101] {
         let p = Uint::from(pp);
         let q = p * Uint::from(2u64) - Uint::ONE;
         c.evbig(p * q, "psi", div_wit(&p), Some(vec![p, q]));
